@@ -172,18 +172,41 @@ func VerifH_C04_RealUnquote() {
 		// the tag the server announced for the resource
 		return ConditionalMatch(internal.ETag(etag).String())
 	}
+	// the announced tag with up to two arbitrary bytes in front of and behind
+	// it (weak-validator prefixes, list separators, blanks, ...): not a
+	// quoted string as soon as it does not begin or does not end with a quote
+	decorated := func(tag string) ConditionalMatch {
+		pre := vrt.StrN(tag+"-prefix", vrt.Choose(tag+"-prefix-len", 3))
+		suf := vrt.StrN(tag+"-suffix", vrt.Choose(tag+"-suffix-len", 3))
+		vrt.Assume((len(pre) > 0 && pre[0] != '"') || (len(suf) > 0 && suf[len(suf)-1] != '"'))
+		return ConditionalMatch(pre + internal.ETag(etag).String() + suf)
+	}
 	var im, inm ConditionalMatch
+	imBad, inmBad := false, false
 	// exactly one of the two headers is an arbitrary byte string
-	if vrt.Choose("arbitrary-header", 2) == 0 {
+	switch vrt.Choose("arbitrary-header", 4) {
+	case 0:
 		im = ConditionalMatch(vrt.StrN("if-match", 1+vrt.Choose("if-match-len", n)))
 		inm = simple("if-none-match")
-	} else {
+	case 1:
 		im = simple("if-match")
 		inm = ConditionalMatch(vrt.StrN("if-none-match", 1+vrt.Choose("if-none-match-len", n)))
+	case 2:
+		im, imBad = decorated("if-match"), true
+		inm = simple("if-none-match")
+	default:
+		im = simple("if-match")
+		inm, inmBad = decorated("if-none-match"), true
 	}
 	imUnq, imErr := im.ETag()
 	inmUnq, inmErr := inm.ETag()
-	checkTruthTable(fi, im, inm, imUnq, imErr == nil, inmUnq, inmErr == nil)
+	if imBad {
+		vrt.Assert(imErr != nil, "a header value that does not begin and end with a quote is not an entity tag")
+	}
+	if inmBad {
+		vrt.Assert(inmErr != nil, "a header value that does not begin and end with a quote is not an entity tag")
+	}
+	checkTruthTable(fi, im, inm, imUnq, imErr == nil && !imBad, inmUnq, inmErr == nil && !inmBad)
 	// any tag obtained from the server is accepted back and compares equal
 	back, err := ConditionalMatch(internal.ETag(etag).String()).ETag()
 	vrt.Assert(err == nil && back == etag, "a tag announced by the server is accepted back in a conditional header")
